@@ -5,7 +5,9 @@ id=$1; shift
 cd /verif
 if ! git -C /repo diff --quiet; then echo "/repo has uncommitted changes"; exit 2; fi
 git -C /repo apply /verif/seeded/$id/patch.diff || { echo "patch does not apply"; exit 2; }
-trap 'git -C /repo checkout -- . ' EXIT
+# the evidence files are rewritten by every run: keep the clean-tree ones and put them back afterwards
+bk=$(mktemp -d /tmp/evidence_backup.XXXXXX); cp -a evidence/. $bk/
+trap 'git -C /repo checkout -- . ; rm -rf /verif/evidence; mkdir -p /verif/evidence; cp -a $bk/. /verif/evidence/; rm -rf $bk' EXIT
 for c in "$@"; do
   out=$(python3 checks/check.py $c quick 2>&1); rc=$?
   echo "== $id vs $c: rc=$rc"; echo "$out" | grep -E "VIOLATION|KNOWN-FINDING" | head -3
